@@ -98,6 +98,24 @@ def run(chk, w):
            "past the end of the sentence the window id becomes %s; expected %s" % (sorted(steps.get("None", [])), sorted(want_steps["None"])), site=C.site(ba0), sample={"form": sorted(steps.get("None", []))})
     chk.ob("R01.7", "table-read-at-new-id", reads == {("Some", True), ("None", True)},
            "the score table is read at (character available, index == new window id) = %s; expected the new id in both cases" % sorted(reads, key=str), site=C.site(ba0))
+    # the table is complete: seqid_to_seq rejects an index only when one of its symbols is the invalid marker (ALPHABET_MASK);
+    # every other index - including windows padded on both sides, which occur for texts shorter than the window - gets its score
+    fs = M + "::seqid_to_seq"
+    if w.body(fs) is not None:
+        bs_, is_, os_ = C.run_fn(w, fs)
+        chk.fn(fs)
+        rows_ = set()
+        for o in os_:
+            if o.kind != "return":
+                continue
+            v = o.value_at((("L", 0),))
+            inval = any(c == ("eq", absint.I(mask)) for s, c in o.cons.items() if s.startswith("ret:") or s.startswith("m:"))
+            rows_.add((v[1] if v[0] == "b" else "value depends on %s" % (v,), inval))
+        chk.ob("R01.7", "table-complete(seqid_to_seq)", rows_ == {(False, True), (True, False)} if ok else False,
+               "seqid_to_seq returns (value, a symbol equals the invalid marker %s) = %s; expected false exactly when a symbol is the invalid marker: "
+               "any other rejected window id keeps score 0 in the table although add_scores can reach it" % (mask, sorted(rows_, key=str)), site=C.site(bs_), sample={"rows": sorted(map(str, rows_))})
+    else:
+        chk.undecided("R01.7", "table-complete(seqid_to_seq)", "%s not found (inlined or renamed with a changed signature?)" % fs)
     # add_scores: preload 0..W, lookup char_types[i + W], add get_score(seqid) to every boundary score
     ba, ia, oa = C.run_fn(w, M + "::add_scores")
     chk.fn(M + "::add_scores")
